@@ -7,7 +7,7 @@ namespace Driver.C12
 /-! Line protocol of C12 (model side / monitor side).
 
 `mon <mode64> <n> {kind gp size read write lo width rwidth follower runLen rmChecked memAlt}*n <dbFlagsR> <dbFlagsW> <featChecked> <dbExt> <featImplies a,b,a,b…>
-     <m> {flags physId rmSize clc rmask wmask emask}*m <implFlagsR> <implFlagsW> <implFeat>`      → `good` | `BAD <clause>`
+     <m> {flags physId rmSize clc rmask wmask emask}*m <implFlagsR> <implFlagsW> <implFeat> <destRule>`      → `good` | `BAD <clause>`
 (lists are comma separated, `-` = empty; masks and flags in hex)
 
 `tbl …` lines load the generated tables into the model state, `x …` lines are answered by the model of
@@ -49,10 +49,10 @@ def parseRow (ws : List String) : Option Row := do
         | _ => []
       let (implOps, rest) ← parseImplOps (← m.toNat?) rest
       match rest with
-      | [ir, iw, feat] =>
+      | [ir, iw, feat, rule] =>
         some { mode64 := ← bool? m64, dbOps := dbOps, dbFlagsR := ← parseHex? fr, dbFlagsW := ← parseHex? fw,
                featChecked := ← bool? fc, dbExt := ← natList? ext, featImplies := pairs impl, implOps := implOps, implFlagsR := ← parseHex? ir,
-               implFlagsW := ← parseHex? iw, implFeat := ← natList? feat }
+               implFlagsW := ← parseHex? iw, implFeat := ← natList? feat, destRule := ← rule.toNat? }
       | _ => none
     | _ => none
   | _ => none
